@@ -4,6 +4,7 @@ import numpy as np
 from scipy.special import factorial
 from numdifftools.extrapolation import EPS, dea3
 from numdifftools.limits import _Limit
+from numdifftools import _verif
 
 _INFO = namedtuple('info', ['error_estimate',
                             'degenerate',
@@ -428,6 +429,10 @@ class Taylor(object):
         if self._direction_changes > 1 or self._degenerate:
             self._num_changes += 1
             if self._num_changes >= 1 + self.num_extrap:
+                if _verif.ON:
+                    _verif.emit('tay_iter', i=int(i), converged=True, degenerate=bool(self._degenerate),
+                                needs_smaller=False, dirchg=int(self._direction_changes),
+                                numchg=int(self._num_changes))
                 return True, r
 
         if not self._degenerate:
@@ -451,6 +456,10 @@ class Taylor(object):
         else:
             r *= self._step_ratio
         self._previous_direction = needs_smaller
+        if _verif.ON:
+            _verif.emit('tay_iter', i=int(i), converged=False, degenerate=bool(self._degenerate),
+                        needs_smaller=bool(needs_smaller), dirchg=int(self._direction_changes),
+                        numchg=int(self._num_changes))
         return False, r
 
     def __call__(self, z0=0):
@@ -479,6 +488,10 @@ class Taylor(object):
             if converged:
                 break
 
+        if _verif.ON:
+            _verif.emit('tay_end', iterations=int(i), circles=len(rs), converged=bool(converged),
+                        degenerate=bool(self._degenerate), max_iter=int(self.max_iter),
+                        min_iter=int(self.min_iter), num_extrap=int(self.num_extrap))
         coefs, errors = _get_best_taylor_coefficients(bs, rs, m, lambda: self._get_max_m1m2(bn, m))
         if self.full_output:
             failed = not converged
